@@ -337,6 +337,18 @@ def w_align(ctx, rng, i):
         align.judge_family(ctx, t, src, tgt2 if isinstance(tgt2, np.ndarray) else np.asarray(tgt2), opts, "after_pseudoinverse")
         # the inverse is itself an alignment (from the old target to the old source): its own queries are consistent
         judge_common(ctx, inv, np.asarray(tgt2, dtype=float), src, "inverse")
+        # ... and the member of the family that undoes the fit: back from the aligned source to the source, so - for targets that
+        # differ from the source by a member of the family - from the target onto the source
+        ctx.tap("inverse_alignment_undoes_the_fit", "calls"); ctx.tap("inverse_alignment_undoes_the_fit", "checked")
+        srcf = np.asarray(src, dtype=float)
+        sc_ = max(1.0, float(np.abs(srcf).max()), float(np.abs(np.asarray(tgt2, dtype=float)).max()))
+        cnd_ = float(np.linalg.cond(np.asarray(t.h_matrix, dtype=float)[:d, :d]))
+        if cnd_ < 1e6:
+            back = np.asarray(inv.apply(np.asarray(t.apply(srcf.copy()))))
+            if not (tx.maxdiff(back, srcf) <= 1e-9 * cnd_ * sc_):
+                ctx.fail("inverse_alignment_does_not_undo_the_alignment", cls=kind, mech=str(sorted(opts.items())), err=tx.maxdiff(back, srcf))
+            if noise == 0.0 and not (float(inv.alignment_error()) <= 1e-7 * cnd_ * sc_ * np.sqrt(len(srcf))):
+                ctx.fail("inverse_alignment_does_not_undo_the_alignment", cls=kind, mech="exact_member:alignment_error", err=float(inv.alignment_error()))
         if rng.random() < 0.5:
             # ... and a working one: retargeted, it is the fit of *its* source (the old target) to the new target
             isrc = np.asarray(inv.source.points, dtype=float).copy()
